@@ -7,7 +7,23 @@
    * the number scanner partitions its input, so a number ends exactly where the SVG number grammar ends
      and nothing is skipped (`number_scanner_partitions`); the spellings that the pinned code rejected are
      accepted, with the right values (kernel-checked instances `accepts_*` - these are tests, one per
-     repaired spelling, not a quantified claim);
+     repaired spelling);
+   * QUANTIFIED over the SVG grammars (abstract syntax in Base/NumSpec, Path/Spec, Geom/XfSpec): for every
+     well-formed `number`, the scanner cuts its spelling off exactly where it ends, if and only if what
+     follows does not continue it (`number_scanned_exactly`), and the value read is the value written
+     (`number_value_read`); every number list with legal separators - including no separator where the
+     grammar allows it - is read as the list of its values (`number_lists_accepted`, `points_accepted`);
+     every legal path (all commands, absolute / relative, letters repeated or omitted, every legal choice
+     of separators, compact arc flags) is accepted and its box is the hull of its end points, closepath
+     returning to the start of its own subpath (`path_data_accepted`, `path_data_never_rejected`); every
+     transform list - white space allowed between a name and its "(" - is accepted with the meaning of
+     each transform (`transform_lists_accepted`);
+   * two deviations found while proving these were repaired in the code (fix 94b2be8, b5cfe2b):
+     `transform="translate (1 2)"` (white space before the parenthesis, legal in SVG) was rejected - now
+     accepted (`transform_space_before_paren_accepted`); a closepath in a second or later subpath returned
+     to the first point of the path rather than of the subpath, which changed the box when relative
+     commands follow - now it returns to the start of its subpath (`closepath_returns_to_subpath_start`,
+     with the subtle case `M1 1 2 2z`: implicit lineto pairs after a moveto do not move the start);
    * the path scanner terminates on every string (C01);
    * an element whose position cannot be computed because a value has a unit or a percentage is emitted
      untouched (`lengths_with_units_bypass`);
@@ -18,6 +34,8 @@
    * children come out in document order (C10 `output_in_document_order`).
 -/
 import Svgdx.Proofs.PathScan
+import Svgdx.Proofs.PathSpec
+import Svgdx.Proofs.XfSpec
 import Svgdx.Proofs.PassThrough
 import Svgdx.Props.C10
 import Svgdx.Props.C11
@@ -62,6 +80,61 @@ theorem accepts_number_lists : svgNumberList 20 cs!"10-3,.5.5 1e1" = some [10, -
 theorem accepts_transform_arguments : (parseXfList cs!"translate(1-2)scale(.5.5)").isSome = true := by decide +kernel
 /-- and what is not a number stays an error -/
 theorem rejects_junk : pathBBox cs!"M 0 0 L 1e 5" = .err ∧ svgNumberList 20 cs!"1 x" = none := by decide +kernel
+
+/-! ### the same, quantified over the SVG grammars -/
+
+/-- **the scanner cuts a number off exactly at the end of its spelling, if and only if what follows does
+    not continue it** (a digit; `e` / `E` when there is no exponent yet; `.` when there is neither a `.`
+    nor an exponent yet). So a sign, a `.` after a fractional part or exponent, a comma, whitespace, a
+    command letter or the end of the input all end the number: the "M10-20", ".5.5", "1e1 2" family. -/
+theorem number_scanned_exactly (n : NumSpec.SvgNumber) (hwf : n.wf = true) (rest : Str) :
+    scanNumber (n.render ++ rest) = (n.render, rest) ↔ n.continuedBy rest = false :=
+  NumSpec.scanNumber_render_iff n hwf rest
+
+/-- **the value read is the value written**, for every spelling of the SVG `number` grammar -/
+theorem number_value_read (n : NumSpec.SvgNumber) (hwf : n.wf = true) : strp n.render = some n.denote :=
+  NumSpec.strp_render n hwf
+
+/-- **number lists**: leading separators, then numbers each followed by a run of whitespace / commas that
+    may be empty exactly where the grammar allows (`NumSpec.sepLegal`: the next number starts with a sign,
+    or with `.` after a number that has a `.` or an exponent) -/
+theorem number_lists_accepted (lead : Str) (items : List NumSpec.NumItem)
+    (hlead : NumSpec.isSepRun lead = true) (hitems : NumSpec.itemsLegal items = true) :
+    svgNumberList ((lead ++ NumSpec.renderItems items).length + 1) (lead ++ NumSpec.renderItems items) =
+      some (items.map (·.1.denote)) :=
+  NumSpec.number_list_accepted_len lead items hlead hitems
+
+/-- **`points`** -/
+theorem points_accepted (lead : Str) (items : List NumSpec.NumItem) (hlead : NumSpec.isSepRun lead = true)
+    (hitems : NumSpec.itemsLegal items = true) : ∃ b, pointsBBox (lead ++ NumSpec.renderItems items) = .ok b :=
+  XfSpec.points_accepted lead items hlead hitems
+
+/-- **path data**: every legal spelling is accepted and the box is the hull of the end points, closepath
+    returning to the first point of its own subpath as SVG defines it -/
+theorem path_data_accepted (lead : Str) (segs : List PathSpec.Seg) (h : PathSpec.pathLegal lead segs = true) :
+    pathBBox (PathSpec.renderPath lead segs) = .ok (PathSpec.hull (PathSpec.visited segs)) :=
+  PathSpec.path_accepted lead segs h
+
+/-- instances: the box of `M0 0zm10 10h1zm1 1h1` is 12 x 11, and `M1 1 2 2zl1 1` closes to (1, 1) -/
+theorem closepath_returns_to_subpath_start :
+    pathBBox cs!"M0 0zm10 10h1zm1 1h1" = .ok (some ⟨0, 0, 12, 11⟩) ∧
+    pathBBox cs!"M1 1 2 2zl1 1" = .ok (some ⟨1, 1, 2, 2⟩) :=
+  ⟨PathSpec.closepath_returns_to_subpath_start.2.2.1, PathSpec.closepath_returns_to_subpath_start.2.2.2.2.2.2.2⟩
+
+theorem path_data_never_rejected (lead : Str) (segs : List PathSpec.Seg)
+    (h : PathSpec.pathLegal lead segs = true) : pathBBox (PathSpec.renderPath lead segs) ≠ .err :=
+  PathSpec.path_never_rejected lead segs h
+
+/-- **transform lists** (white space allowed between a name and its parenthesis: `XfSpec.Item.gap`) -/
+theorem transform_lists_accepted (lead : Str) (ts : List XfSpec.Item) (hlead : lead.all isXfSep = true)
+    (hempty : ts = [] → lead.all XfSpec.isXfWs = true) (hlegal : XfSpec.listLegal ts = true) :
+    parseXfList (XfSpec.renderList lead ts) = some (ts.map XfSpec.Item.denote) :=
+  XfSpec.transform_list_accepted lead ts hlead hempty hlegal
+
+/-- instance: white space between a transform name and "(" is legal SVG and is accepted -/
+theorem transform_space_before_paren_accepted :
+    parseXfList cs!"translate (10 20)" = some [.translate 10 20] :=
+  XfSpec.space_before_paren_accepted.1
 
 /-- the path scanner ends on every string (C01) -/
 theorem path_scanner_total (d : Str) : pathBBox d ≠ .outOfFuel := pathBBox_total d
@@ -152,3 +225,12 @@ end Svgdx.Props.C04
 #print axioms Svgdx.Props.C04.other_attributes_untouched
 #print axioms Svgdx.Props.C04.presentation_attributes_untouched
 #print axioms Svgdx.Props.C04.children_in_document_order
+#print axioms Svgdx.Props.C04.number_scanned_exactly
+#print axioms Svgdx.Props.C04.number_value_read
+#print axioms Svgdx.Props.C04.number_lists_accepted
+#print axioms Svgdx.Props.C04.points_accepted
+#print axioms Svgdx.Props.C04.path_data_accepted
+#print axioms Svgdx.Props.C04.path_data_never_rejected
+#print axioms Svgdx.Props.C04.transform_lists_accepted
+#print axioms Svgdx.Props.C04.transform_space_before_paren_accepted
+#print axioms Svgdx.Props.C04.closepath_returns_to_subpath_start
